@@ -75,7 +75,7 @@ type Vocab struct {
 var NarrowVocab = Vocab{
 	Paths: []string{"/foo", "/Foo", "/foo/", "/zzz", "/etc/a", "/etc/A", "@{run}/x", "@{HOME}/.a", "@{bin}/foo",
 		"@{lib}/foo", "/usr/share/b", "/opt/x", "/é", "/è", `"/a b"`, `"/a!b"`, "/a{b,c}", "/a[0-9]", "/tmp/x",
-		"@{tmp}/x", "/dev/shm/y", "/usr/lib/q", "/proc/1", "@{PROC}/1", "/**", "/"},
+		"@{tmp}/x", "/dev/shm/y", "/usr/lib/q", "/proc/1", "@{PROC}/1", "/**", "/", "/usr/bin/mysqld_safe", "/opt/unsafe"}, // the last two end like keywords
 	Names:   []string{"foo", "Foo", "bar", "foo//bar", "@{p_systemd}", "unconfined", "foo-bar", "/foo", "/etc/a"}, // the last two are also in Paths
 	Addrs:   []string{"none", "@/tmp/a", "@/tmp/A", `"@/tmp/.X11-unix/X0"`},
 	FsTypes: []string{"tmpfs", "Tmpfs", "proc", "ext4"},
